@@ -368,6 +368,37 @@ def run(tier='quick'):
             if not any(_sym(le, ld, name, msgs) for ld in lds):
                 bad = msgs[0] if msgs else 'no decoder path matches an encoder path'
                 break
+        if not bad:
+            # every field the decoder stores (and operator== compares) is written from that field
+            # by at least one encoder path (optional-slot sentinels use it in the present arm)
+            def plain_fields(lins, mentions=False):
+                out = set()
+
+                def rec(items):
+                    for it in items:
+                        if it[0] in ('prim', 'bytes') and is_plain(it[2]) and not it[2].startswith('size('):
+                            out.add(it[2])
+                        elif it[0] == 'prim' and not is_plain(it[2]) and mentions:
+                            # sentinel / conditional forms mention the field they encode
+                            for m in re.findall(r'[A-Za-z_][A-Za-z0-9_\[\].]*', it[2]):
+                                out.add(m)
+                        elif it[0] == 'repeat':
+                            for body in it[2]:
+                                rec(body)
+                for l in lins:
+                    rec(l)
+                return out
+            enc_f = plain_fields(les, mentions=True)
+            dec_f = plain_fields(lds)
+            rec_ = prog.records.get(ge.func.cls)
+            members = {x.get('name') for x in (rec_.fields if rec_ else [])}
+            lost = sorted(f_ for f_ in dec_f if f_ not in enc_f and f_.split('.')[-1] not in
+                          {e.split('.')[-1] for e in enc_f} and not f_.startswith(('local', 'const'))
+                          and f_.split('.')[0].split('[')[0] in members)
+            if lost:
+                bad = ('the decoder stores %s (compared by operator==) but no encoder path writes that field: '
+                       'the encoder derives or substitutes the value, so a value whose field differs does not '
+                       'survive the round trip' % lost)
         if ge.framing != gd.framing:
             bad = 'encoder framing %s, decoder framing %s' % (ge.framing, gd.framing)
         if bad:
@@ -450,35 +481,42 @@ def _size_guard(func, alloc_var, ex, w, a):
 
 
 def _narrowing(prog, ex, chk, S2, name, f):
-    funcs = [f]
+    """Every conversion of a container length (x.length() / x.size()) to a type of at most eight
+    bits - explicit cast or implicit narrowing, wherever it stands (argument of encode_uint8,
+    initialiser of a local) - is an obligation: a dominating guard on the UN-narrowed length
+    (`if (x.length() > 255) throw`) must bound it.  A test on the narrowed value proves nothing."""
+    def small(t):
+        t = (t or '').replace('const ', '').strip()
+        return t in ('uint8_t', 'unsigned char', 'char', 'signed char', 'int8_t', 'std::byte', 'uint_least8_t')
+    seen = set()
     for n in walk(f.body):
-        if n.get('kind') != 'CallExpr':
+        k = n.get('kind')
+        if k not in ('CXXStaticCastExpr', 'CStyleCastExpr', 'CXXFunctionalCastExpr', 'ImplicitCastExpr'):
             continue
-        d, nm = ex.callee(n, f.tu)
-        if nm != 'encode_uint8':
+        if not small(n.get('dtype') or n.get('type')):
             continue
-        arg = children(n)[1]
-        a = strip(arg)
-        if a.get('kind') not in ('CXXStaticCastExpr', 'CStyleCastExpr', 'CXXFunctionalCastExpr'):
-            # implicit narrowing of a size
-            inner = strip(arg, explicit=True)
-        else:
-            inner = strip(children(a)[0], explicit=True)
+        c = children(n)
+        if len(c) != 1:
+            continue
+        inner = strip(c[0], explicit=True)
         if inner.get('kind') != 'CXXMemberCallExpr':
             continue
         callee = strip(children(inner)[0])
         if callee.get('name') not in ('length', 'size'):
             continue
+        if id(inner) in seen:
+            continue
+        seen.add(id(inner))
         target = ex.resolve(inner, {}, f.tu)
         guards = _guards_before(f, n, prog)
         if any(_cmp_bound(g, ex, f.tu, target) for g in guards):
-            chk.ok(S2, '%s: %s narrowed to uint8 under a range guard' % (name, target), locstr(n))
+            chk.ok(S2, '%s: %s narrowed to one byte under a range guard on the full length' % (name, target), locstr(n))
         else:
             chk.violation(S2, '%s|%s' % (name, re.sub(r'local:', '', target)), locstr(n),
-                          '%s::%s writes %s into a one-byte field with no dominating check that it is '
-                          '<= 255: a longer label is written with a truncated length byte followed by '
-                          'all of its bytes, and decodes to something else' % (
-                              _short(f.cls or ''), f.name, target))
+                          '%s::%s narrows %s to one byte with no dominating check of the full length against '
+                          '255 (a test on the already narrowed value cannot fail): a longer label is written '
+                          'with a truncated length byte followed by all of its bytes, and decodes to something '
+                          'else' % (_short(f.cls or ''), f.name, target))
 
 
 def _sentinels(prog, ex, chk, S4, name, ge, gd):
